@@ -41,6 +41,10 @@ func (g *Gen) emit(line string) string {
 	switch strings.Fields(line)[0] {
 	case "dotx", "play", "playminer", "walk", "walktrace", "reopen", "race2", "balrace", "selrace":
 		g.emit1("obs")
+	case "mtruncate":
+		g.emit1("obs")
+		g.emit1("ledger")
+		g.emit1("lcheck")
 	case "confirm", "truncate":
 		g.emit1("ledger")
 		g.emit1("lcheck")
@@ -601,7 +605,18 @@ func (g *Gen) scenario(p *Profile) {
 			tip := e.ledgerTip()
 			if tip > 0 && e.stateTip() == tip {
 				c := w.chain(tip)
-				tgt := c[len(c)-1-(1+g.r.Intn(min(2, len(c)-1)))]
+				tgt := c[len(c)-1-(1+g.r.Intn(min(3, len(c)-1)))]
+				if g.r.Chance(1, 2) {
+					// through the real Miner.truncateForMiner
+					if g.emit(fmt.Sprintf("mtruncate %d", tgt)) == "ok" {
+						for b := range g.confirmed {
+							if w.Blocks[b].Height > w.Blocks[tgt].Height {
+								delete(g.confirmed, b)
+							}
+						}
+					}
+					break
+				}
 				if g.emit(fmt.Sprintf("walk %d", tgt)) == "ok" {
 					if g.emit(fmt.Sprintf("truncate %d", tgt)) == "ok" {
 						for b := range g.confirmed {
